@@ -2,6 +2,6 @@
 # tools/seedrun.sh <seeded-dir> <tier> <check ids...> : run checks against /repo + seeded patch (scratch copy), one line per check
 S=$1; tier=$2; shift 2
 for c in "$@"; do
-  out=$(tools/mutcheck.sh /verif/$S/patch.diff -- bin/check $c --tier $tier 2>&1)
-  echo "$S $c[$tier]: $(echo "$out" | grep -c '^VIOLATION') violations :: $(echo "$out" | grep 'key=' | head -1 | cut -c1-170)"
+  out=$(tools/mutcheck.sh /verif/$S/patch.diff -- bin/check $c --tier $tier 2>&1); rc=$?
+  echo "$S $c[$tier]: rc=$rc $(echo "$out" | grep -c '^VIOLATION') violations :: $(echo "$out" | grep 'key=' | head -1 | cut -c1-170)"
 done
